@@ -445,6 +445,17 @@ def fam_conn(tier, seed):
                  dict(rng.choice(STOP_VARIANTS), at=tstop, i="A"),
                  {"at": tdisc + grace, "do": "release_gate", "i": "A"}]
         out.append(scn("conn-stop-at-grace-%d" % k, seed * 1000 + 900 + k, H, 3.0, insts, steps, "conn", tstop + 8 * S))
+    # a connection notification delivered while a stop call is inside its critical section (same scheduler gate)
+    for k in range(6 if tier == "quick" else 36):
+        H = rng.choice([200 * MS, 500 * MS, 1 * S])
+        tstop = int((1.3 + rng.random()) * H)
+        ev = ["disc", "reconn", "closed"][k % 3]
+        insts = [inst("A", conn=True, grace_us=2 * H, gate_stop_metric=True)]
+        steps = [{"at": 0, "do": "start", "i": "A"}] + ([{"at": tstop - H // 2, "do": "disc", "i": "A"}] if ev == "reconn" else []) + [
+                 dict(STOP_VARIANTS[(k // 3) % len(STOP_VARIANTS)], at=tstop, i="A"),
+                 {"at": tstop + 10 * MS, "do": ev, "i": "A"},
+                 {"at": tstop + 10 * MS, "do": "release_gate", "i": "A"}]
+        out.append(scn("conn-notification-during-stop-%s-%d" % (ev, k), seed * 1000 + 950 + k, H, 3.0, insts, steps, "conn", tstop + 8 * S))
     return out
 
 
@@ -622,6 +633,53 @@ def fam_regress(tier, seed):
                 dict(ev, when={"i": "A", "kind": "get", "src": "validate", "nth": 2, "phase": "pre"},
                      then=[{"do": "sleep", "us": H + H // 4 if cause == "hb" else 300 * MS}])], "regress", 10 * H + 3 * S, lat=20 * MS, watch=30 * MS,
                 rules=[{"match": {"i": "A", "kind": "get", "src": "validate"}, "fault": "fail:other", "from_nth": 1, "count": 1}]))
+        # 12. the answer of a takeover Update issued before a Stop/Start arrives while the restarted instance leads again
+        #     (the stop gives up waiting for it; found by the soak in the stop family, variant restart_held)
+        for v in rng.sample(range(len(STOP_VARIANTS)), 2):
+            st = dict(STOP_VARIANTS[v])
+            st.update({"when": {"i": "B", "kind": "update", "src": "takeover", "nth": 2, "phase": "post"}, "i": "B",
+                       "then": [{"do": "sleep", "us": 6 * S + 500 * MS}, {"do": "start", "i": "B"}, {"do": "sleep", "us": rng.choice([700, 1000, 1400]) * MS}]})
+            out.append(scn("reg-takeover-answer-after-restart-v%d-%d" % (v, k), seed * 1000 + k, H, 5.0,
+                           [inst("A", vi_us=H, prio=1), inst("B", vi_us=H, prio=2, takeover=True)],
+                           [{"at": 0, "do": "start", "i": "A"}, {"at": H // 4, "do": "start", "i": "B"}, st], "regress", 9 * S + 8 * H,
+                           rules=[{"match": {"i": "B", "kind": "update", "src": "takeover"}, "fault": "fail:conflict", "from_nth": 1, "count": 1}]))
+        # 13. the leader's OnPromote callback winds down slowly: StopWithContext{DeleteKey} waits for it past the expiry of the
+        #     record and a successor's acquisition; whatever the stop decided about ownership earlier is stale by then
+        Hs = 500 * MS
+        out.append(scn("reg-slow-wind-down-across-expiry-%d" % k, seed * 1000 + k, Hs, 3.0,
+                       [inst("A", promote_drain_us=rng.choice([2500, 3000, 3500]) * MS), inst("B"), inst("C")],
+                       [{"at": 0, "do": "start", "i": "A"}, {"at": Hs // 5, "do": "start", "i": "B"}, {"at": Hs // 3, "do": "start", "i": "C"},
+                        {"at": int((2.1 + rng.random()) * Hs), "do": "stopctx", "i": "A", "del": True}], "regress", 14 * Hs + 5 * S, lat=20 * MS, watch=30 * MS))
+        # 14. a takeover candidate whose reads of the record keep answering "not found" while its Creates keep answering
+        #     "exists" (a store that is inconsistent for this client): rounds stay bounded (four Creates, backed off, no recursion)
+        out.append(scn("reg-takeover-read-not-found-while-record-exists-%d" % k, seed * 1000 + k, H, ratio,
+                       [inst("A", prio=1), inst("B", prio=2, takeover=True)],
+                       [{"at": 0, "do": "start", "i": "A"}, {"at": H // 4, "do": "start", "i": "B"}], "regress", 6 * H + 2 * S, lat=20 * MS, watch=30 * MS,
+                       rules=[{"match": {"i": "B", "kind": "get", "src": "takeover"}, "fault": "fail:notfound", "from_nth": 1, "count": 0}]))
+        #     the same inside an acquisition round: the start attempt reads the record of a higher-priority leader and gives way
+        out.append(scn("reg-round-read-not-found-while-record-exists-%d" % k, seed * 1000 + k, H, ratio,
+                       [inst("A", prio=3), inst("B", prio=2, takeover=True)],
+                       [{"at": 0, "do": "start", "i": "A"}, {"at": H // 4, "do": "start", "i": "B"}], "regress", 6 * H + 2 * S, lat=20 * MS, watch=30 * MS,
+                       rules=[{"match": {"i": "B", "kind": "get", "src": "takeover"}, "fault": "fail:notfound", "from_nth": 2, "count": 0}]))
+        # 15. a follower-side read (periodic check) issued before the instance won the election is answered only after a
+        #     higher-priority instance has taken its record over: the read must not touch the leader's own bookkeeping
+        H1 = 1 * S
+        out.append(scn("reg-follower-read-answered-after-own-term-was-preempted-%d" % k, seed * 1000 + k, H1, ratio,
+                       [inst("A"), inst("B", prio=1), inst("C", prio=3, takeover=True)], [
+            {"at": 0, "do": "start", "i": "A"}, {"at": H1 // 4, "do": "start", "i": "B"},
+            {"when": {"i": "B", "kind": "create", "src": "acq", "nth": 5, "phase": "pre"}, "do": "stopctx", "i": "A", "del": True,
+             "then": [{"do": "sleep", "us": 700 * MS}]},
+            {"when": {"i": "B", "kind": "get", "src": "check", "nth": 1, "phase": "pre"}, "do": "noop",
+             "then": [{"do": "sleep", "us": 900 * MS}, {"do": "start", "i": "C"}, {"do": "sleep", "us": rng.choice([350, 400, 450]) * MS}]}],
+            "regress", 9 * H1 + 2 * S, lat=20 * MS, watch=30 * MS))
+        # 16. Stop of a leader whose OnPromote callback (or another goroutine Stop waits for) needs longer than Stop's 5 s wait
+        for v in ("stop", "stopctx"):
+            out.append(scn("reg-stop-outlasted-by-slow-wind-down-%s-%d" % (v, k), seed * 1000 + k, H, ratio,
+                           [inst("A", promote_drain_us=rng.choice([5500, 6500, 8000]) * MS), inst("B")],
+                           [{"at": 0, "do": "start", "i": "A"}, {"at": H // 4, "do": "start", "i": "B"},
+                            dict({"do": v, "i": "A"}, at=int(2.4 * H))] +
+                           ([{"at": int(2.4 * H) + 12 * S, "do": "start", "i": "A"}] if rng.random() < 0.5 else []),
+                           "regress", int(2.4 * H) + 20 * S, lat=20 * MS, watch=30 * MS))
     return out
 
 
